@@ -37,8 +37,39 @@ def conservation(section, doc, line, model_line=None):
     if module is pm_oof_corr and what:
         reference = model_line if model_line is not None else module.model_line('driver_c01', doc)
         if not reference.startswith('err:') and module.conservation_violation(doc, reference):
-            what = module.conservation_violation(doc, line, flow_only=True)
+            # the model (= the unchanged code) loses or repeats out-of-flow lines on this document too: the
+            # recorded findings. Report only what the implementation loses or repeats beyond that.
+            what = module.conservation_violation(doc, line, flow_only=True) or oof_delta(doc, line, reference)
+    if module is pm_oof_corr and not what:
+        # documents with a fixed height somewhere are not judged by the clause above (lines under a fixed height may
+        # be forgotten: the recorded finding); compare with the pagination of the unchanged code instead
+        reference = model_line if model_line is not None else module.model_line('driver_c01', doc)
+        what = oof_delta(doc, line, reference)
     return what
+
+
+def oof_delta(doc, line, reference):
+    """Lines that the implementation shows a wrong number of times (0 or > 1) where the reference pagination (the
+    model of the unchanged code, run on the same document) shows them a different number of times."""
+    import collections
+    if line.startswith('err:'):
+        return None
+    if reference.startswith('err:'):
+        return None
+    by_id = pm_oof_corr.box_index(doc)
+
+    def counts(out):
+        shown = []
+        for page in pm_oof_corr.parse_pages(out):
+            pm_oof_corr.frag_lines(page[-1], shown, by_id, False)
+        return collections.Counter(shown)
+    got, ref = counts(line), counts(reference)
+    want = pm_oof_corr.expected_all_lines(doc['root'], [])
+    bad = [(w, got[w], ref[w]) for w in want if got[w] != 1 and got[w] != ref[w]]
+    if bad:
+        return ('lines shown a wrong number of times (line, times, times in the unchanged pagination): '
+                f'{bad[:6]}')
+    return None
 
 
 def progress(section, doc, line):
